@@ -247,9 +247,14 @@ pub fn run_generate(src: &str) -> GenResult {
         Ok(out) => {
             let mut errors = Vec::new();
             collect_compile_errors(out.clone(), &mut errors);
+            // rustc reports output that is not a sequence of items as "proc-macro derive produced
+            // unparsable tokens": neither an implementation nor a diagnostic of the derive
+            let unparsable = syn::parse2::<syn::File>(out.clone())
+                .err()
+                .map(|e| format!("derive produced unparsable tokens: {e}"));
             GenResult {
                 out_text: out.to_string(),
-                panic: None,
+                panic: unparsable,
                 snapshots,
                 errors,
             }
